@@ -117,7 +117,8 @@ fn main() {
     let timeout = Duration::from_secs(if args.thorough { 120 } else { 60 });
     let mut hung = false;
     'rounds: for _round in 0..n_rounds {
-        let Some(gm) = gen_model(&mut rng) else { continue };
+        let cf = rng.chance(1, 3);
+        let Some(gm) = (if cf { gen_cf_model(&mut rng) } else { gen_model(&mut rng) }) else { continue };
         if gm.live_values().is_empty() || gm.op_ids.is_empty() {
             continue;
         }
@@ -198,6 +199,7 @@ fn main() {
                 }
             }
         }
+        let log_graphs = plan_log::take_graphs();
         let log = plan_log::take();
         for (ti, tj) in jobs.iter().enumerate() {
             for (ji, j) in tj.iter().enumerate() {
@@ -232,21 +234,62 @@ fn main() {
             out.note("a round did not finish within the watchdog timeout; remaining rounds skipped");
             break 'rounds;
         }
-        // lock-order replay
-        let entries = if log.is_empty() {
+        // run-time assertion of the graph hypotheses of the theorems on the real graph(s)
+        let family = all_graphs(shared.verif_graph());
+        for g in &family {
+            let (line, ans) = assume_case(g);
+            let pf = if gm.assumption_failures.is_empty() { None } else { Some(format!("assumption violated: {}", gm.assumption_failures.join(","))) };
+            out.bucket(if cf { "assume_control_flow_graph" } else { "assume_graph" });
+            out.case(&line, &ans, pf.as_deref(), false);
+        }
+        // lock-order replay: top-level cache (`locks`) and the caches of If/Loop bodies (`slocks`)
+        let addr = |g: &rten::verif::Graph| g as *const rten::verif::Graph as usize;
+        let fam_index = |a: usize| family.iter().position(|g| addr(g) == a);
+        let mut top: Vec<&(Vec<NodeId>, Vec<NodeId>, bool)> = vec![];
+        let mut sub: Vec<(usize, &(Vec<NodeId>, Vec<NodeId>, bool))> = vec![];
+        let mut unknown_graph = log_graphs.len() != log.len();
+        for (e, (a, is_sub)) in log.iter().zip(log_graphs.iter()) {
+            match fam_index(*a) {
+                Some(0) if !*is_sub => top.push(e),
+                Some(k) if k > 0 && *is_sub => sub.push((k, e)),
+                _ => unknown_graph = true,
+            }
+        }
+        let entries = if top.is_empty() {
             "-".to_string()
         } else {
-            hcommon::join(log.iter().map(|(i, o, _)| format!("{}>{}", ids_token(i), ids_token(o))), ";")
+            hcommon::join(top.iter().map(|(i, o, _)| format!("{}>{}", ids_token(i), ids_token(o))), ";")
         };
-        let flags: String = if log.is_empty() { "-".into() } else { log.iter().map(|(_, _, h)| if *h { 'h' } else { 'm' }).collect() };
-        let hits = log.iter().filter(|e| e.2).count();
-        out.bucket(if hits > 0 && hits < log.len() { "round_hits_and_misses" } else { "round_uniform" });
+        let flags: String = if top.is_empty() { "-".into() } else { top.iter().map(|(_, _, h)| if *h { 'h' } else { 'm' }).collect() };
+        let hits = top.iter().filter(|e| e.2).count();
+        out.bucket(if hits > 0 && hits < top.len() { "round_hits_and_misses" } else { "round_uniform" });
         // replacement = a miss after the first entry
-        let repl = log.iter().skip(1).filter(|e| !e.2).count();
+        let repl = top.iter().skip(1).filter(|e| !e.2).count();
         out.bucket(&format!("round_replacements_{}", repl.min(5)));
-        out.case(&format!("locks {} {entries}", gm.nodes_field), &flags, None, log.len() > 1);
+        let pf = if unknown_graph { Some("plan-cache log entry for a graph outside the model's family (or is_subgraph flag inconsistent)") } else { None };
+        out.case(&format!("locks {} {entries}", gm.nodes_field), &flags, pf, top.len() > 1);
+        if family.len() > 1 {
+            let graphs = hcommon::join(
+                family.iter().skip(1).map(|g| {
+                    let (nodes, _, _, _) = read_back_graph(g);
+                    let caps = g.captures();
+                    format!("{nodes}~{}", ids_token(caps))
+                }),
+                "@",
+            );
+            let sentries = if sub.is_empty() {
+                "-".to_string()
+            } else {
+                hcommon::join(sub.iter().map(|(k, (i, o, _))| format!("{k}:{}>{}", ids_token(i), ids_token(o))), ";")
+            };
+            let sflags: String = if sub.is_empty() { "-".into() } else { sub.iter().map(|(_, (_, _, h))| if *h { 'h' } else { 'm' }).collect() };
+            let distinct: std::collections::HashSet<usize> = sub.iter().map(|(k, _)| *k).collect();
+            out.bucket(&format!("round_subgraph_caches_used_{}", distinct.len()));
+            out.bucket(&format!("round_subgraph_lock_events_{}", (sub.len() / 8 * 8).min(64)));
+            out.case(&format!("slocks {graphs} {sentries}"), &sflags, None, !sub.is_empty());
+        }
     }
-    out.finish("every concurrent call returns bit for bit what the same call returns alone on a freshly loaded model; no panic; no hang; logged hit/miss sequence equals the Lean replay of get_cached_plan in lock order");
+    out.finish("every concurrent call returns bit for bit what the same call returns alone on a freshly loaded model; no panic; no hang; logged hit/miss sequences of the top-level and of the If/Loop body plan caches equal the Lean replay of get_cached_plan in lock order; the graph hypotheses of the theorems hold on every generated model");
     if hung {
         // worker threads may still be blocked: do not wait for them
         std::process::exit(0);
